@@ -205,7 +205,7 @@ class DefGen:
             base.update(tk="sarr", t=sname, fields=self.struct_fields(v0, v1, flex_lo, depth))
             if r.random() < 0.3:
                 base["nullable"] = [r.randint(v0, v1), OPEN]
-            if flex_lo is not None and r.random() < 0.15 and max(flex_lo, v0) <= v1 and base["nullable"] == NONE:
+            if flex_lo is not None and r.random() < 0.15 and max(flex_lo, v0) <= v1:
                 base["tagged"] = [max(flex_lo, v0), OPEN]
             return base
         # inline struct
@@ -405,8 +405,17 @@ def matrix_definitions() -> list[dict]:
                 fs.append(_complete({"name": "Tag" + t.capitalize(), "t": t, "tk": "prim", "tagged": [1, OPEN],
                                      "tag": tag, "hasdefault": True, "default": d[0], "spelling": d[1]}))
                 tag += 1
+                # ignorable AND an explicit default: the explicit default is the one to use
+                fs.append(_complete({"name": "TagIgnDflt" + t.capitalize(), "t": t, "tk": "prim", "tagged": [1, OPEN],
+                                     "tag": tag, "hasdefault": True, "default": d[0], "spelling": d[1],
+                                     "ignorable": True}))
+                tag += 1
             fs.append(_complete({"name": "TagIgn" + t.capitalize(), "t": t, "tk": "prim", "versions": None,
                                  "tagged": [1, OPEN], "tag": tag, "ignorable": True}))
+            tag += 1
+            # tagged only from a later version than the one the field appears in (a plain field before)
+            fs.append(_complete({"name": "TagLate" + t.capitalize(), "t": t, "tk": "prim", "versions": [0, OPEN],
+                                 "tagged": [2, OPEN], "tag": tag, "ignorable": True}))
             tag += 1
             if t in ("string", "bytes"):
                 fs.append(_complete({"name": "TagNul" + t.capitalize(), "t": t, "tk": "prim", "tagged": [1, OPEN],
@@ -452,6 +461,8 @@ def matrix_definitions() -> list[dict]:
                      "nullable": [1, OPEN], "hasdefault": True, "spelling": "null"}),
           _complete({"name": "TagItems", "t": "TagItem", "tk": "sarr", "fields": inner("TagItem"), "tagged": [2, OPEN],
                      "tag": 1, "versions": [2, OPEN]}),
+          _complete({"name": "TagNulItems", "t": "TagNulItem", "tk": "sarr", "fields": inner("TagNulItem"),
+                     "tagged": [2, OPEN], "tag": 2, "versions": [2, OPEN], "nullable": [2, OPEN]}),
           _complete({"name": "FirstShared", "t": "SharedThing", "tk": "csarr"}),
           _complete({"name": "SecondShared", "t": "SharedThing", "tk": "csarr", "versions": [1, OPEN]})]
     out.append({"id": "mxt", "kind": "request", "name": "MatrixStructRequest", "apiKey": 7, "valid": [0, 2],
